@@ -30,7 +30,7 @@ theorem usedAtL_single (u : Nat × Nat) (h1 : u.2 = 1) (lv : Nat) :
   unfold usedAtL
   by_cases h : u.1 = lv
   · simp [h, h1]
-  · simp [List.filter_cons, h]
+  · simp [h]
 
 /-- Ones only: what `alloc` appends. -/
 def Ones (used : List (Nat × Nat)) : Prop := ∀ u ∈ used, u.2 = 1
